@@ -17,6 +17,19 @@ from the output; they do count for the scaffold's length in the map.  This holds
 are absent from the map as well: they are rebuilt from their contigs and must come out with every gap row of every run
 (repaired in /repo: the rebuild used to replace a run of gap rows by one join gap).
 
+Names.  The statement holds for all input assemblies, whatever their scaffolds and contigs are called: an unedited map
+has no haplotype, Target or other tag, so every scaffold belongs to the primary output under its own name.  Besides the
+names of the shared generators (scaffold_<n>, ctg<n><letter>, old<n><m>) the `names` family re-labels scaffolds and contigs
+with the name shapes assemblers, polishers and earlier curation rounds produce: letters+digits+underscore+anything
+(contig1_pilon, tig00012_arrow, ctg7_1, Chr3_random), a haplotype-like word in front (hap1_3, HAP2_ctg4), several
+underscores without a trailing number (ctg_12_pilon, hap1_scaffold_3_pilon, x_y_12a), empty parts (ctg3__x, _ctg3_x,
+q3_), a leading number (3_ctg), upper / lower / mixed case, dots.  Kept OUT of the name space, and asserted: names of
+the shape <x>_<y>_<digits> (routed to an invented haplotype by the unchanged tree: the known finding
+C09 'name-derived-haplotype'), the generated namespaces of the side condition above (names that start with an autosome
+prefix in use, H_<n>, and PretextView's own Scaffold_<n>), and the letter 'I' (the output order
+reads it as a roman numeral; the input lists its scaffolds in numeric-aware order so that "same order" can be judged
+literally).
+
 Painted clause, on top of the returned assemblies: for every n-th all-painted case the output assemblies are asked for a
 second time from the same BuildAssembly (names and content must not depend on how often they are requested), and some
 all-painted cases are run through the pretext-to-asm command line with --autosome-prefix, twice in the same process: the
@@ -26,6 +39,7 @@ scaffold names in the written primary file must be <prefix><rank by amount of se
 import itertools
 import pathlib
 import random
+import re
 import tempfile
 from fractions import Fraction
 
@@ -97,7 +111,8 @@ def problems_of(case, run):
     problems = []
     extra = [k for k in out if k is not None]
     if extra:
-        problems.append(f"output assemblies other than the primary were produced: {extra!r}")
+        held = {k: [sc["name"] for sc in out[k]["scaffolds"]][:3] for k in extra[:4]}
+        problems.append(f"output assemblies other than the primary were produced: {extra!r} (holding scaffolds {held}; an unedited / all-painted map has one output assembly, the primary)")
     if (run.cuts, run.breaks, run.joins) != (0, 0, 0):
         problems.append(f"statistics report cuts={run.cuts} breaks={run.breaks} joins={run.joins}, expected 0/0/0")
     hap_removals = pg.info_yaml(run).get("manual_haplotig_removals") if case.get("yaml") else len(out.get("Haplotig", {"scaffolds": []})["scaffolds"])
@@ -325,6 +340,56 @@ def gap_run_specs(tier):
     return specs
 
 
+# --------------------------------------------------------------------------------------------------
+# names: the shapes scaffold and contig names have in real assemblies
+# --------------------------------------------------------------------------------------------------
+
+# {n} is a number that makes the name unique (scaffolds: 1.., contigs: 100 * scaffold number + contig number)
+NAME_SHAPES = (
+    # letters + digits + underscore + anything
+    "contig{n}_pilon", "ctg{n}_x", "tig{n:05d}_arrow", "Chr{n}_random", "LG{n}_arrow", "scaffold{n}_arrow", "ptg{n:06d}l_1", "ctg{n}_1", "q{n}_",
+    # a haplotype-like word in front
+    "hap1_{n}", "HAP2_{n}", "Hap2_ctg{n}", "H1_tig{n}", "hap1_scaffold{n}", "mat_{n}", "PAT_ctg{n}",
+    # several underscores, no number at the end
+    "ctg_{n}_pilon", "scaffold_{n}_rc", "hap1_scaffold_{n}_pilon", "x_y_{n}a", "a_b_c{n}_d", "ctg{n}_x_", "Sc{n}_a_b",
+    # empty parts, leading number, dots, upper case
+    "ctg{n}__x", "_ctg{n}_x", "{n}_ctg", "{n}_2_x", "x.y_{n}", "ctg{n}.1_2", "UTG{n}_A", "CTG{n}_POLCA", "scaffold{n}", "Scaffold{n}", "SCAFFOLD_{n}",
+)
+PREFIXES = ("SUPER_", "chr", "CHR_", "Super")
+PRETEXT_NAME = re.compile(r"Scaffold_\d+")  # what PretextView calls the scaffolds of its map: a generated namespace
+
+
+def name_ok(name):
+    """inside the name space of this module (see the module text): not <x>_<y>_<digits>, outside the generated namespaces, no 'I'"""
+    generated = name.startswith(PREFIXES) or name.startswith("H_") or PRETEXT_NAME.fullmatch(name)
+    return not pg.NAME_DERIVED_HAPLOTYPE.search(name) and not generated and "I" not in name
+
+
+def renamed(inp, scaffold_shapes, contig_shapes):
+    """
+    the same assembly with other names: scaffold number i (1-based) is called scaffold_shapes[i - 1] filled with i, each of
+    its contigs that is not named after the scaffold contig_shapes[i - 1] filled with 100 * i + its number (contigs of
+    the same old name keep a common name; coordinates, lengths, gaps, strands unchanged); the scaffolds listed in
+    numeric-aware order of their new names
+    """
+    out = []
+    for i, (sc, ss, cs) in enumerate(zip(inp, scaffold_shapes, contig_shapes, strict=True), 1):
+        new = {sc["name"]: ss.format(n=i)}
+        rows = []
+        for r in sc["rows"]:
+            if r[0] == "F":
+                if r[1] not in new:
+                    new[r[1]] = cs.format(n=100 * i + len(new))
+                rows.append(["F", new[r[1]], *r[2:]])
+            else:
+                rows.append(list(r))
+        for nm in new.values():
+            assert name_ok(nm), nm
+        out.append({"name": new[sc["name"]], "rows": rows})
+    assert len({s["name"] for s in out}) == len(out)
+    return sorted(out, key=lambda s: pg.natural_key(s["name"]))
+
+
 def run(tier, seed, **opts):
     rng = random.Random(seed)
     col = Collector(
@@ -333,14 +398,14 @@ def run(tier, seed, **opts):
         "texel sizes x floor/ceil x absent/present x painted/unpainted inside the side condition, (b) every ordered pair "
         "of a reduced shape set, (c) seeded inputs of 2-12 scaffolds x <= 4 contigs; three contig naming styles, input via "
         "objects/AGP/TPF; (d) enumerated and (e) seeded inputs with runs of 2-3 consecutive gap rows between contigs and gap rows in front of the "
-        "first / behind the last contig; oracle: row-by-row identity with the input (terminal gap rows dropped), painted names = prefix + rank by "
+        "first / behind the last contig; (f) every shape of scaffold / contig names real assemblies use other than <x>_<y>_<digits> on a 3-scaffold input and (g) seeded inputs with seeded name shapes; oracle: row-by-row identity with the input (terminal gap rows dropped), painted names = prefix + rank by "
         "amount of sequence, also on a second request and through the command line with --autosome-prefix; non-trivial = distinct case in which at least one "
         "scaffold's texel rounding is not exact or a scaffold is absent"
     )
     quick = tier == "quick"
     namings = ("own", "fasta", "offset")
     n = 0
-    stats = {"single": 0, "pairs": 0, "random": 0, "gapruns": 0, "random_gapruns": 0, "all_painted": 0, "cli": 0, "skipped_outside_domain": 0}
+    stats = {"single": 0, "pairs": 0, "random": 0, "gapruns": 0, "random_gapruns": 0, "names": 0, "random_names": 0, "all_painted": 0, "cli": 0, "skipped_outside_domain": 0}
     cli_every = 400 if quick else 1500
 
     def one(case, fam, nontrivial):
@@ -474,8 +539,71 @@ def run(tier, seed, **opts):
         prefix = rng.choice(("SUPER_", "SUPER_", "chr", "CHR_"))
         for roundings, absent, painted in variants(inp, bpt):
             one(null_map(inp, bpt, roundings, absent, painted, prefix=prefix, via=pg.pick_via(inp, idx)), "random_gapruns", inexact(inp, bpt, absent))
+    # (f) name shapes: three scaffolds (two contigs with a gap, one contig, one shorter than a texel at the larger texel sizes)
+    # all named after one shape, for every shape; scaffold names and contig names of the same or of different shapes
+    n_shapes = len(NAME_SHAPES)
+    for ti, shape in enumerate(NAME_SHAPES):
+        if col.full:
+            break
+        for bi, bpt in enumerate(pg.BPTS):
+            if quick and bi != (ti % 2) + 2:
+                continue
+            for ni, naming in enumerate(namings):
+                if quick and ni != (ti // 2) % 3:
+                    continue
+                idx += 1
+                base = [
+                    pg.make_scaffold("scaffold_1", (40, 150), (1, -1), [S200], naming, tag="1"),
+                    pg.make_scaffold("scaffold_2", (150,), None, None, naming, tag="2"),
+                    pg.make_scaffold("scaffold_3", (2, 1), (-1, 1), [C1], naming, tag="3"),
+                ]
+                other = NAME_SHAPES[(ti + 7 * (1 + ni)) % n_shapes]
+                for scaffold_shapes, contig_shapes in (([shape] * 3, [shape] * 3), ([shape] * 3, [other] * 3), ([other, shape, shape], [shape, other, shape])):
+                    inp = renamed(base, scaffold_shapes, contig_shapes)
+                    if not in_domain(inp, bpt):
+                        stats["skipped_outside_domain"] += 1
+                        continue
+                    for roundings, absent, painted in variants(inp, bpt):
+                        one(null_map(inp, bpt, roundings, absent, painted, prefix=PREFIXES[idx % 3], via=pg.pick_via(inp, idx)), "names", inexact(inp, bpt, absent))
+    # (g) seeded inputs as in (c) and (e), every scaffold and its contigs named after seeded shapes (one shape for all / one per scaffold)
+    for _ in range(120 if quick else 8000):
+        if col.full:
+            break
+        bpt = rng.choice(pg.BPTS)
+        k = rng.choice((2, 3, 3, 4, 5, 9))
+        inp = []
+        for si in range(k):
+            nc = rng.randint(1, 4)
+            lt = [rng.choice((1, 2, 7, 40, 150)) for _ in range(nc)]
+            if sum(lt) >= bpt and lt[-1] < bpt:
+                lt[-1] = rng.choice((40, 150))
+            if rng.random() < 0.3:
+                runs = [tuple(rng.choice(GAP_KINDS) for _ in range(rng.choice((0, 1, 2)))) for _ in range(nc - 1)]
+                sc = run_scaffold(f"scaffold_{si + 1}", lt, [rng.choice((1, -1)) for _ in range(nc)], runs, (), (), rng.choice(namings), str(si + 1))
+            else:
+                gaps = [rng.choice(pg.GAP_CHOICES) for _ in range(nc - 1)]
+                sc = pg.make_scaffold(f"scaffold_{si + 1}", lt, [rng.choice((1, -1)) for _ in range(nc)], gaps, rng.choice(namings), tag=str(si + 1))
+            inp.append(sc)
+        if rng.random() < 0.5:
+            shape = rng.choice(NAME_SHAPES)
+            scaffold_shapes = [shape] * k
+            contig_shapes = [shape if rng.random() < 0.5 else rng.choice(NAME_SHAPES)] * k
+        else:
+            scaffold_shapes = rng.sample(NAME_SHAPES, k)
+            contig_shapes = [rng.choice(NAME_SHAPES) for _ in range(k)]
+        inp = renamed(inp, scaffold_shapes, contig_shapes)
+        if not in_domain(inp, bpt):
+            stats["skipped_outside_domain"] += 1
+            continue
+        idx += 1
+        prefix = rng.choice(PREFIXES[:3])
+        for roundings, absent, painted in variants(inp, bpt):
+            one(null_map(inp, bpt, roundings, absent, painted, prefix=prefix, via=pg.pick_via(inp, idx)), "random_names", inexact(inp, bpt, absent))
     return col.result(
         bounds=(
+            f"name shapes: {n_shapes} shapes of scaffold / contig names (letters+digits+underscore+anything, haplotype-like first word, several underscores "
+            "without a trailing number, empty parts, leading number, dots, upper / lower case; never <x>_<y>_<digits>) on 3 scaffolds (one shorter than a texel) "
+            f"x {'one rotating' if quick else 'every'} (texel size, contig naming style) x same / other shape for the contigs, and seeded inputs of 2-9 scaffolds with seeded shapes; "
             "contig lengths {1,2,7,40,150,1000}, gaps none/1/10/20/25/200, both strands, texel sizes {1,2.5,10,33.3}; "
             "single scaffolds of <= 2 contigs: all; pairs of scaffolds over lengths {1,7,40}: all (thorough) / seeded 12 % (quick); "
             "seeded inputs of 2-12 scaffolds x <= 4 contigs; floor/ceil per scaffold, every subset of <= 2 sub-texel scaffolds "
